@@ -26,8 +26,20 @@ def run(rep, tier, seed, replay):
         stats = {"replay": 1}
     else:
         cases, stats = G.gen(seed, tier)
-    mo = ltv.run_sharded(model, cases)
+    # policy of the compiled code (what the property leaves open), probed behaviourally; the theorems'
+    # side conditions are evaluated on it by the extracted checker
+    probe = ltv.run_lines(impl, ["PROBE"], timeout=120)[0]
+    policy = probe[0] if probe else "ERR:no-probe"
+    if not policy.startswith("q="):
+        rep.violation("the policy probe of the implementation failed: " + policy[:200], theorem="probe C05", found_input=False)
+        policy = "q=2048 ll=131072 ei=0 eu=0"
+    pok = ltv.run_lines(model, ["PARAMS " + policy])[0]
+    if pok != ["PARAMS-OK"]:
+        rep.violation("side conditions of the theorems do not hold for the probed policy (%s): request length limit above 2^17" % policy,
+                      theorem="params_ok (coq/C05/Proofs.v)", found_input=False)
     io = ltv.run_sharded(impl, cases, timeout=900)
+    mcases = [G.model_case(c, o, policy) for c, o in zip(cases, io)]
+    mo = ltv.run_sharded(model, mcases)
     nontrivial, mism, samples = set(), 0, []
     opk = {"R": 0, "C": 0, "D": 0, "W": 0}
     npiece = nclosed = niseed = niseed_pieces = 0
@@ -72,7 +84,7 @@ def run(rep, tier, seed, replay):
             coq["discharged"], coq["obligations"], "; ".join(coq["lint"] + coq["bad_axioms"]), coq["log"][-1500:]),
             theorem="coq/C05/Properties.v", found_input=False)
     stats = dict(stats)
-    stats.update(ops=opk, piece_messages_seen=npiece, cases_closed_by_library=nclosed,
+    stats.update(probed_policy=policy, ops=opk, piece_messages_seen=npiece, cases_closed_by_library=nclosed,
                  initial_seed_cases_oracle_only=niseed, initial_seed_piece_messages=niseed_pieces)
     rep.cov.update(evaluations=len(cases), distinct_nontrivial=len(nontrivial),
                    rule="cases = corpus + hand lists (plain, RC4, 512 KiB pieces) + random valid / boundary / malformed / inner-file-part request streams over 6 layouts, plain and RC4 "
